@@ -7,9 +7,12 @@ import (
 	"github.com/vulcand/oxy/v2/zverif/c02"
 	"github.com/vulcand/oxy/v2/zverif/c04"
 	"github.com/vulcand/oxy/v2/zverif/c14"
+	"github.com/vulcand/oxy/v2/zverif/c18"
 )
 
 func init() {
+	parts["c18"] = c18.Run
+	replays["c18"] = c18.Replay
 	parts["c14s"] = c14.RunSched
 	finders["c14s"] = c14.Find
 	parts["c02s"] = c02.RunSched
@@ -19,3 +22,6 @@ func init() {
 	parts["c04"] = c04.Run
 	finders["c04"] = c04.Find
 }
+
+// replays for the sequential (non-scheduler) parts that live in this binary.
+var replays = map[string]func(rp map[string]any) (bool, string){}
